@@ -89,7 +89,11 @@ LOADS = {
 SEQS_Q = [['plain'], ['import-then-use'], ['use-before'], ['between'], ['twice'], ['bad-import'], ['nocomp'],
           ['module'], ['in-section'], ['fixed-slot'], ['c-import-use', 'plain'], ['c-import-b', 'c-bad', 'plain'],
           ['c-import-use', 'c-import-b', 'use-before']]
-SEQS_T = SEQS_Q + [['c-import-b', 'import-then-use'], ['bad-import', 'c-import-use', 'fixed-slot'],
+# every (concrete earlier load, any later load) pair against one schema object
+SEQS_Q += [[a, b] for a in ('c-import-use', 'c-import-b', 'c-bad', 'bad-import') for b in LOADS
+           if [a, b] not in SEQS_Q]
+SEQS_T = SEQS_Q + [[a, b, c] for a in ('c-import-use', 'c-bad') for b in ('c-import-b', 'c-import-use', 'nocomp')
+                   for c in ('import-then-use', 'between', 'twice', 'fixed-slot', 'plain')] + [['c-import-b', 'import-then-use'], ['bad-import', 'c-import-use', 'fixed-slot'],
                    ['c-import-use', 'c-import-use', 'twice'], ['c-bad', 'in-section']]
 
 
